@@ -32,7 +32,7 @@ const EDGE: [i64; 14] = [
     0, 1, -1, i64::MAX, i64::MIN, i64::MAX - 1, i64::MIN + 1, 86_400_000, -86_400_000, 86_399_999,
     -86_400_001, 999, -1000, -9_223_372_036_828_800_000,
 ];
-const MUT_ALPHABET: &[u8] = b"0123456789.-+:/TZdhms a_fF";
+const MUT_ALPHABET: &[u8] = b"0123456789.-+:/TZdhms a_fF\n";
 
 struct X<'a> {
     g: &'a mut Gen,
